@@ -174,6 +174,11 @@ def run(chk):
         chk.cov["traces_validated_against_impl"] += 1
     for p in acc[:3]:
         chk.sample({"binding": "%s: %s" % (p["prop"], lang.r_body(p["body"])), "rows": rows_of[p["id"]][:2]})
+    # string constants inside binding expressions: hostile literals (control characters followed by digits / hex letters, quotes, trigraph-like
+    # text, non-ASCII) are compiled, evaluated and read back byte for byte -- the round trip shared with C16
+    from checks import c16
+    for kind, what, s, qml, header, msg in c16.strings_leg(chk, classes):
+        chk.violation("string constant (%s) %r in a binding expression: %s" % (what, s, msg[:300]), {"qml": qml, "header": header, "string": s, "detail": msg})
     chk.cov["trusted_base"] = ["g++ 12 (C++ expression semantics)", "mock Qt (mockqt_core.h, generated classes)", "TLC", "Lang.tla as oracle"]
     chk.assumptions += ["int values within -(2^31-1)..2^31-1; uint wrap-around not modelled; doubles restricted to exact quarters",
                         "string contents alphanumeric in this check (escaping is C16/C09/C03)"]
